@@ -296,6 +296,11 @@ func (p *untypedParamBinder) setFieldValue(target reflect.Value, defaultValue in
 		return errors.Required(p.Name, p.parameter.In, data)
 	}
 
+	if text, isText := defaultValue.(string); isText && data == "" {
+		// a default declared as text stands for the value the client did not send: it is parsed likewise
+		data = text
+	}
+
 	ok, err := p.tryUnmarshaler(target, defaultValue, data)
 	if err != nil {
 		return errors.InvalidType(p.Name, p.parameter.In, tpe, data)
@@ -440,8 +445,10 @@ func (p *untypedParamBinder) tryUnmarshaler(target reflect.Value, defaultValue i
 	// When a type implements encoding.TextUnmarshaler we'll use that instead of reflecting some more
 	if reflect.PtrTo(target.Type()).Implements(textUnmarshalType) {
 		if defaultValue != nil && len(data) == 0 {
-			target.Set(reflect.ValueOf(defaultValue))
-			return true, nil
+			if defVal := reflect.ValueOf(defaultValue); defVal.Type().AssignableTo(target.Type()) {
+				target.Set(defVal)
+				return true, nil
+			}
 		}
 		value := reflect.New(target.Type())
 		if err := value.Interface().(encoding.TextUnmarshaler).UnmarshalText([]byte(data)); err != nil {
